@@ -19,7 +19,7 @@ func init() {
 		ID: "C01", Level: "exploration", Primary: "shapes", EvalCount: "requests_compared",
 		Rule: "requests are drawn from a seeded generator over all seven operations (message IDs over 0..2^31-1 incl. boundary values, adversarial byte strings, " +
 			"go-ldap-accepted round-tripping filters, 0..n attributes/changes/values, 0..n controls of all nine typed kinds and generic OIDs, both criticalities) and encoded by two " +
-			"independent encoders (sber, go-ldap client), against servers logging at Error and at Debug level; each is compared field by field with what the handler obtains through the public API. " +
+			"independent encoders (sber, go-ldap client), against servers logging at Error and at Debug level; list lengths run up to 100 and lists repeat elements (verbatim and in another case); unsupported operations are sent under every application tag up to 30 and under 24 tags in the high-tag-number form (31 .. 2^32+3) with bind-shaped, empty and request-shaped bodies; each is compared field by field with what the handler obtains through the public API. " +
 			"distinct_nontrivial counts distinct shape signatures (operation, id class, length classes, counts per list, control kind/criticality/value-presence sequence) of requests that reached a handler",
 		Assume: []string{"extended-request values and extended/unbind controls are not exposed by gldap and are not asserted",
 			"an extended request's name is observed through the exact-name route that served it, its message ID through the response's message ID"},
